@@ -26,7 +26,7 @@ E2_NOTE = ("Trusted base: reference Jaqal machine R2 (task-per-branch, seeded sc
            "(statement ambiguous there). Runs execute in chunks inside one forked process; state the library keeps between calls is reported through chain replay. Sampling over seeds, not enumeration.")
 E1_NOTE = ("Trusted base: identity-aware deep snapshot R4, meaning extractor X, twin/other-order executions and (C11, C16) the last run of every chunk executed alone in a new process as reference. Bounds: histories of 4-20 operations, pool<=6, "
            "programs<=25 statements. Pre-emptive threads are not simulated (no property mentions them); interleaving is explored as operation order, as nesting at the two re-entrancy points "
-           "(gate matrix functions, pulse-module top level) and as cancellation at an arbitrary line event. Sampling over seeds, not enumeration; C16's per-text truncation/flip sweep is exhaustive for the swept text.")
+           "(gate matrix functions, pulse-module top level) and as cancellation at an arbitrary line event. Sampling over seeds, not enumeration; C16's two per-text sweeps (truncation/flip at every offset; every pair of argument kinds for one call statement) are exhaustive for the swept text.")
 CHECKS = {
  "C03": ("E2", "seeded scheduler of parallel branches + simulator-owned sampler vs reference Jaqal machine (deterministic simulation)",
    "Seeded search over programs x branch interleavings (reference machine: two gate-granularity schedules; real emulator: permuted written branch order) x sampler histories x emulate-again-on-the-same-object; state vectors and probabilities compared with an independent tensor-contraction reference to 1e-9. Exploration is the right level: the statement quantifies over all programs and interleavings, which can only be sampled.", E2_NOTE),
@@ -34,13 +34,13 @@ CHECKS = {
    "Every run executes under a line-event budget (non-termination is a replayable verdict), checks exactly-one sampler call per visit with the visited subcircuit's distribution, readout order/attribution/frequencies, and the same for hardware output lists of matching length produced by the stub. Loop counts 0..3, literal, let-valued and overridden.", E2_NOTE),
  "C09": ("E2", "two executions fed the identical recorded random stream and the identical hardware history (deterministic simulation), plus structural comparison through the meaning extractor",
    "Spelling A (subcircuit blocks) and spelling B (prepare_all..measure_all written out) are run under the identical sampler tape and hardware list and must give identical results; expand_subcircuits(A) is compared with B through the independent extractor (no subcircuit left, header unchanged, bounding definitions native or caller-supplied).", E2_NOTE),
- "C15": ("E2", "recorded readout streams from the sampler seam and the hardware stub (int/str/mixed encodings) checked against the result views",
-   "All result views of every run are checked for normalisation, key order, little-endian correspondence and counts; the hardware stub's history is delivered in three encodings that must be interpreted identically; the support-adversarial sampler makes rare and non-palindromic outcomes common.", E2_NOTE),
+ "C15": ("E2", "recorded readout streams from the sampler seam and the hardware stub (int/str/mixed/numpy-scalar/bool encodings) checked against the result views",
+   "All result views of every run are checked for normalisation, key order, little-endian correspondence and counts; the hardware stub's history is delivered in up to five encodings (int, bit string, mixed, numpy integer scalars, bool for one qubit) that must be interpreted identically; the support-adversarial sampler makes rare and non-palindromic outcomes common.", E2_NOTE),
  "C10": ("E1", "seeded operation-history search (orders and repetitions of passes) against the meaning extractor as reference model",
-   "Histories of passes over a shared starting circuit: sequences with the same set of pass kinds must agree in meaning, each pass must be idempotent in three views, parser flags must equal explicit passes, every intermediate circuit must regenerate and re-parse to the same meaning.", E1_NOTE),
+   "Histories of passes over a shared starting circuit under arbitrary override dictionaries (also integers given as floats): sequences with the same set of pass kinds must agree in meaning, each pass must be idempotent in three views, parser flags must equal explicit passes, every intermediate circuit must regenerate and re-parse to the same meaning.", E1_NOTE),
  "C11": ("E1", "session simulator: operation histories on shared objects with identity-aware snapshots, twin executions on fresh copies and in a process that ran nothing before, cancellation at step k, re-entrant nested calls",
    "After every operation of a seeded history (including failed, interrupted and nested operations) the deep identity-aware snapshot of every live circuit, result and the gate table must be unchanged, and every operation's outcome must equal that of the same operation on a freshly parsed copy.", E1_NOTE),
- "C16": ("E1", "fault injection on the source store and pulse-module store, cancellation at step k, histories compared between two process lifetimes and with a process that ran nothing before (deterministic simulation), exhaustive truncation/flip sweep per text, depth faults (nesting up to 520)",
+ "C16": ("E1", "fault injection on the source store and pulse-module store, cancellation at step k, histories compared between two process lifetimes and with a process that ran nothing before (deterministic simulation), exhaustive truncation/flip and argument-kind sweeps per text, depth faults (nesting up to 520)",
    "Corrupted, truncated and torn texts, missing/broken pulse modules and interrupts are injected into histories of parse/run calls; every outcome must be a value, JaqalError (JaqalParseError with an in-text position) or ImportError for a missing module, within the step budget, and every call's outcome must be identical in a process lifetime with a different history.", E1_NOTE),
 }
 def main(claimed):
